@@ -197,6 +197,8 @@ def generate(run_seed, tier):
     bulk = rw.random() < 0.12   # backlog regime: long stream, reads up to libzmq's 8192-byte batch
     if bulk:
         n = rw.choice([300, 700, 1500])
+        if tier != "quick" and rw.random() < 0.04:
+            n = rw.choice([6000, 20000])   # soak: count-dependent behaviour (every Nth frame, counters, growth)
         p_hot = rw.choice([0.0, 0.05])
         frames = gen_forward_frames(rw, fmt, n, p_hot)
         mix = rw.choice(["any", "commb_heavy", "adsb_heavy"])
